@@ -75,6 +75,12 @@ func c10(tier string) []*explore.Scenario {
 	for _, end := range []string{"stop", "read", "write", "none"} {
 		out = append(out, expiredStream("C10", end, 1))
 	}
+	// a peer that opens an id again while an earlier handler for it has not returned
+	for _, how := range []string{"reset", "deadline"} {
+		for _, end := range []string{"stop", "read"} {
+			out = append(out, c10IdReopened(how, end, 1))
+		}
+	}
 	// the connection ends while resets the server issued are still waiting for its writer
 	for _, end := range []string{"stop", "write-fails", "read-fails"} {
 		out = append(out, c12ResetsUnread("C10", end, 2))
@@ -447,6 +453,106 @@ func expiredStream(prop, end string, bound int) *explore.Scenario {
 			vsched.Quiesce()
 			if ts := vsched.Threads(); len(ts) > 0 {
 				vsched.Fail(fam+"|goroutine-leak", "after the connection ended and the handler returned: %s", threadList())
+			}
+		},
+	}
+}
+
+// c10IdReopened: a peer that uses an id again. Stream 7 is open with a handler that ignores its
+// context until released; the peer resets 7 (or 7's grpc-timeout passes), opens 7 again (a
+// second handler, waiting on its context), the first handler is released, the peer opens 7 a
+// third time; then the connection ends. However the server treats the repeated opens, when
+// Serve has returned and the handlers were released every handler that ever started has
+// returned, its context is done, and no goroutine of the connection remains.
+func c10IdReopened(how, end string, bound int) *explore.Scenario {
+	fam := "C10/id-reopened"
+	return &explore.Scenario{
+		Name: fmt.Sprintf("C10/id-reopened/%s/end=%s", how, end), Family: fam, Prop: "C10", Bound: bound, Horizon: time.Hour,
+		Run: func() {
+			w := env.NewWorld()
+			d := env.NewDirect(w, env.DirectOpts{Pipe: env.PipeOpts{Cap: 16}, NoClient: true})
+			vsched.GoNamed("peer-reader", func() {
+				for {
+					if _, err := d.Pipe.A.Read(context.Background()); err != nil {
+						return
+					}
+				}
+			})
+			type hrun struct {
+				ctx      context.Context
+				returned bool
+			}
+			var runs []*hrun
+			release1, releaseAll := make(chan struct{}), make(chan struct{})
+			w.Rec("s", "Bidi")
+			w.Handlers["s"] = func(r *env.Rec, ss grpc.ServerStream) error {
+				h := &hrun{ctx: ss.Context()}
+				first := len(runs) == 0
+				runs = append(runs, h)
+				if first {
+					<-release1 // ignores its context
+				} else {
+					select {
+					case <-ss.Context().Done():
+					case <-releaseAll:
+					}
+				}
+				h.returned = true
+				return nil
+			}
+			open := func() *env.Rpc { return env.ReqOpen(7, env.MBidi, "s") }
+			o1 := open()
+			if how == "deadline" {
+				o1.Header.Headers = append(o1.Header.Headers, &goatorepo.KeyValue{Key: "grpc-timeout", Value: "50m"})
+			}
+			d.Pipe.A.Inject(o1)
+			vsched.Settle()
+			vsched.Explore(true)
+			if how == "reset" {
+				d.Pipe.A.Inject(env.ReqReset(7, env.MBidi))
+				vsched.Quiesce()
+			} else {
+				vsched.QuiesceTime()
+			}
+			d.Pipe.A.Inject(open())
+			vsched.Quiesce()
+			close(release1)
+			vsched.Quiesce()
+			d.Pipe.A.Inject(open())
+			vsched.Quiesce()
+			switch end {
+			case "stop":
+				d.Srv.Stop()
+			case "read":
+				d.Pipe.A.Break()
+				d.Pipe.B.Break()
+			}
+			vsched.Quiesce()
+			served := d.ServeDone
+			live := 0
+			for _, h := range runs {
+				if !h.returned && h.ctx.Err() == nil {
+					live++
+				}
+			}
+			vsched.Obs("%s/%s: handler runs=%d serveDone=%v still running with a live context=%d", how, end, len(runs), served, live)
+			if !served {
+				vsched.Fail(fam+"|serve-hang", "id 7 opened three times (%s in between), then the connection ended (%s): Serve did not return; threads: %s", how, end, threadList())
+			}
+			if served && live > 0 {
+				vsched.Fail(fam+"|ctx-not-cancelled", "id 7 opened three times (%s in between), then the connection ended (%s): Serve returned while %d of the %d handlers that had started still run with a live context", how, end, live, len(runs))
+			}
+			close(releaseAll)
+			d.Pipe.A.Break()
+			d.Pipe.B.Break()
+			vsched.Quiesce()
+			for i, h := range runs {
+				if !h.returned {
+					vsched.Fail(fam+"|handler-hang", "handler run %d of id 7 never returned", i+1)
+				}
+			}
+			if ts := vsched.Threads(); len(ts) > 0 {
+				vsched.Fail(fam+"|goroutine-leak", "after the connection ended and every handler was released: %s", threadList())
 			}
 		},
 	}
